@@ -264,6 +264,66 @@ fn index_domains(ctx: &mut Ctx) {
         }
         n
     });
+    // Out-of-domain arguments to the checked constructors of the index types: they panic (fine), or
+    // whatever they return must carry an index inside the table domain; a value that got through is
+    // then used the way the library uses it (hashing, FEN, validation), so that an out-of-range
+    // lookup is also seen by the std precondition checks / ASan / Miri.
+    let miri = ctx.config == "miri";
+    let mut probes: Vec<usize> = (0..=(if miri { 20usize } else { 300 })).collect();
+    for k in if miri { vec![8usize] } else { vec![8usize, 16, 32] } {
+        for d in 0..(if miri { 2usize } else { 70 }) {
+            probes.push((1usize << k) + d);
+            probes.push((1usize << k).wrapping_mul(3) + d);
+        }
+    }
+    probes.extend([usize::MAX, usize::MAX - 1, usize::MAX / 2 + 1, u32::MAX as usize, u32::MAX as usize + 1]);
+    let mut leaked: Vec<String> = Vec::new();
+    let mut probe_n = 0u64;
+    for &i in &probes {
+        probe_n += 6;
+        if let Ok(v) = crate::ctx::catch(|| CastlingRights::from_index(i)) {
+            if v.index() >= 16 {
+                leaked.push(format!("CastlingRights::from_index({}) returned a value with index {}", i, v.index()));
+                let _ = crate::ctx::catch(|| {
+                    let mut r = RawBoard::initial();
+                    r.castling = v;
+                    let _ = r.zobrist_hash();
+                    let _ = r.as_fen();
+                    let _ = Board::try_from(r).map(|b| (b.zobrist_hash(), semilegal::gen_all(&b).len()));
+                });
+            }
+        }
+        if let Ok(v) = crate::ctx::catch(|| owlchess::Coord::from_index(i)) {
+            if v.index() >= 64 {
+                leaked.push(format!("Coord::from_index({}) returned a value with index {}", i, v.index()));
+            }
+        }
+        if let Ok(v) = crate::ctx::catch(|| owlchess::File::from_index(i)) {
+            if v.index() >= 8 {
+                leaked.push(format!("File::from_index({}) returned a value with index {}", i, v.index()));
+            }
+        }
+        if let Ok(v) = crate::ctx::catch(|| owlchess::Rank::from_index(i)) {
+            if v.index() >= 8 {
+                leaked.push(format!("Rank::from_index({}) returned a value with index {}", i, v.index()));
+            }
+        }
+        if let Ok(v) = crate::ctx::catch(|| Piece::from_index(i)) {
+            if v.index() >= 6 {
+                leaked.push(format!("Piece::from_index({}) returned a value with index {}", i, v.index()));
+            }
+        }
+        if let Ok(v) = crate::ctx::catch(|| Cell::from_index(i)) {
+            if v.index() >= 13 {
+                leaked.push(format!("Cell::from_index({}) returned a value with index {}", i, v.index()));
+            }
+        }
+    }
+    ctx.eval(probe_n);
+    ctx.feature_n("out_of_domain_constructor_probes", probe_n);
+    if let Some(l) = leaked.first() {
+        ctx.violation("index_value_outside_table_domain", "index-domains", l);
+    }
     match r {
         Ok(n) => {
             ctx.eval(n);
@@ -290,6 +350,126 @@ fn count_of(ctx: &mut Ctx, p: &MPos) -> Option<usize> {
                 ctx.violation(&format!("panic:gen_all:{}", crate::ctx::panic_site(&msg)), &case, &msg);
             }
             None
+        }
+    }
+}
+
+/// Raw boards on which one side has 17..31 men (mostly queens) while the total stays within 32, the
+/// other king shielded in a corner so that it is not attacked. The validator must turn them down;
+/// C19 does not judge that (C11 does), but if one gets through it is a "valid position" as far as the
+/// API is concerned, and the generators are run on it under the move-list observer.
+fn overfull(ctx: &mut Ctx, count: u64) {
+    for _ in 0..count {
+        let w = ctx.rng.chance(1, 2);
+        let mut p = MPos::empty();
+        p.white_to_move = w;
+        // victim king on a1 with the mover's bishops on b1, a2 and a knight on b2 (blocks every line)
+        p.sq[sq(0, 0) as usize] = man(!w, b'K');
+        p.sq[sq(1, 0) as usize] = man(w, b'B');
+        p.sq[sq(0, 1) as usize] = man(w, b'B');
+        p.sq[sq(1, 1) as usize] = man(w, b'N');
+        if ctx.rng.chance(1, 2) {
+            // the rim of the board (nearly) full of the mover's queens, the interior (nearly) empty:
+            // the shape with the most moves per man
+            let rim: Vec<Sq> = (0..64u8).filter(|&t| (file_of(t) == 0 || file_of(t) == 7 || rank_of(t) == 0 || rank_of(t) == 7) && p.at(t) == EMPTY).collect();
+            let kpos = loop {
+                let t = *ctx.rng.pick(&rim);
+                if !(file_of(t) <= 2 && rank_of(t) <= 2) {
+                    break t;
+                }
+            };
+            let holes = ctx.rng.below(4);
+            for &t in &rim {
+                if t == kpos {
+                    p.sq[t as usize] = man(w, b'K');
+                } else if ctx.rng.below(25) < holes {
+                    if ctx.rng.chance(1, 2) {
+                        p.sq[t as usize] = man(w, *ctx.rng.pick(b"RB"));
+                    }
+                } else {
+                    p.sq[t as usize] = man(w, b'Q');
+                }
+            }
+            for _ in 0..ctx.rng.below(3) {
+                let t = ctx.rng.below(64) as u8;
+                if p.at(t) == EMPTY {
+                    p.sq[t as usize] = man(w, *ctx.rng.pick(b"QQRB"));
+                }
+            }
+        } else {
+            let extras = 13 + ctx.rng.below(16) as usize; // 3 + 1 + extras = 17..=32 men for the mover
+            let mut placed = 0usize;
+            let mut king_done = false;
+            let mut tries = 0;
+            while (placed < extras || !king_done) && tries < 4000 {
+                tries += 1;
+                let t = ctx.rng.below(64) as u8;
+                if p.at(t) != EMPTY {
+                    continue;
+                }
+                if !king_done {
+                    if file_of(t) <= 2 && rank_of(t) <= 2 {
+                        continue;
+                    }
+                    p.sq[t as usize] = man(w, b'K');
+                    king_done = true;
+                    continue;
+                }
+                // no knights (they could attack the corner), no pawns (rank rules); every line into
+                // the corner is blocked by the shield
+                p.sq[t as usize] = man(w, *ctx.rng.pick(b"QQQQQRB"));
+                placed += 1;
+            }
+        }
+        if ctx.rng.chance(1, 2) {
+            p = p.mirror_h();
+        }
+        if ctx.rng.chance(1, 2) {
+            let wtm = p.white_to_move;
+            p = p.mirror_v();
+            p.white_to_move = !wtm;
+        }
+        overfull_one(ctx, &p);
+    }
+}
+
+fn overfull_one(ctx: &mut Ctx, p: &MPos) {
+    {
+        let mover = p.white_to_move;
+        let own = p.count(mover);
+        let total = own + p.count(!mover);
+        let case = format!("raw:{}", mfen::to_xfen(p));
+        ctx.begin_case(&case);
+        ctx.eval(1);
+        ctx.feature("overfull_raw_offered");
+        if total <= 32 {
+            ctx.feature("overfull_raw_offered_total_within_32");
+        }
+        let raw = crate::conv::to_raw(p);
+        let r = crate::ctx::catch(|| match Board::try_from(raw.clone()) {
+            Err(_) => None,
+            Ok(b) => {
+                let a = semilegal::gen_all(&b).len();
+                let l = legal::gen_all(&b).len();
+                let h = b.has_legal_moves();
+                let _ = b.calc_outcome();
+                Some((a, l, h))
+            }
+        });
+        let of = crate::hooks::take_overflow();
+        if !of.is_empty() {
+            ctx.violation("move_list_overflow", &case, &format!("{} men for the side to move were let through validation; {}", own, of[0]));
+            return;
+        }
+        match r {
+            Ok(None) => ctx.feature("overfull_raw_rejected"),
+            Ok(Some((a, _, _))) => {
+                ctx.feature("overfull_raw_accepted_by_validation");
+                if ctx.notes.len() < 6 {
+                    ctx.notes.push(format!("a raw board with {} men for one side was accepted by validation ({} semilegal moves): C11's business, no buffer was exceeded", own, a));
+                }
+            }
+            Err(msg) => ctx.violation(&format!("panic:overfull:{}", crate::ctx::panic_site(&msg)), &case, &msg),
         }
     }
 }
@@ -402,6 +582,8 @@ pub fn run(ctx: &mut Ctx) {
         let p = gen::fam_mobility(&mut ctx.rng);
         stream::offer(ctx, &p, "fam_mobility", &mut exercise);
     }
+    let nover = ctx.budget(40_000, 400_000);
+    overfull(ctx, if miri { 2 } else { nover.max(4) });
     let iters = ctx.budget(12_000_000, 200_000_000);
     mobility_search(ctx, if miri { iters.min(6) } else { iters });
     ctx.feature_max("list_capacity", crate::hooks::list_cap() as u64);
@@ -411,6 +593,11 @@ pub fn run(ctx: &mut Ctx) {
 pub fn replay(ctx: &mut Ctx, case: &str) -> bool {
     if case == "index-domains" {
         index_domains(ctx);
+        return true;
+    }
+    if let Some(x) = case.strip_prefix("raw:") {
+        let Ok(p) = mfen::from_fen(x) else { return false };
+        overfull_one(ctx, &p);
         return true;
     }
     replay_pos(ctx, case.split('|').next().unwrap_or(case), &mut exercise)
